@@ -305,10 +305,23 @@ func (s *Solver) Check(pc []*Term, extra *Term, vars []*Term, label string) (str
 // OneShot runs the query in a fresh process without push/pop so that z3 can
 // use its non-incremental tactics.  Used as a fall-back for queries on which
 // the incremental solver answers unknown.
-func OneShot(kind SolverKind, timeoutMs int, pc []*Term, extra *Term, vars []*Term) (string, Model, time.Duration) {
+func OneShot(kind SolverKind, timeoutMs int, pc []*Term, extra *Term, vars []*Term, cancel <-chan struct{}) (string, Model, time.Duration) {
 	t0 := time.Now()
 	s := NewSolver(kind, timeoutMs)
 	defer s.Close()
+	if cancel != nil {
+		done := make(chan struct{})
+		defer close(done)
+		go func() {
+			select {
+			case <-cancel:
+				if s.cmd != nil && s.cmd.Process != nil {
+					s.cmd.Process.Kill()
+				}
+			case <-done:
+			}
+		}()
+	}
 	for _, p := range pc {
 		s.emit(p)
 		fmt.Fprintf(&s.buf, "(assert %s)\n", p.ref())
@@ -494,4 +507,33 @@ func DumpQuery(path string, pc []*Term, extra *Term) {
 	}
 	s.buf.WriteString("(check-sat)\n")
 	os.WriteFile(path, []byte(s.buf.String()), 0644)
+}
+
+
+// Portfolio runs the query one-shot on several solvers in parallel and
+// returns the first definite answer.
+func Portfolio(kinds []SolverKind, timeoutMs int, pc []*Term, extra *Term, vars []*Term) (string, Model, SolverKind) {
+	type ans struct {
+		r string
+		m Model
+		k SolverKind
+	}
+	ch := make(chan ans, len(kinds))
+	cancel := make(chan struct{})
+	for _, k := range kinds {
+		go func(k SolverKind) {
+			r, m, _ := OneShot(k, timeoutMs, pc, extra, vars, cancel)
+			ch <- ans{r, m, k}
+		}(k)
+	}
+	res := ans{r: "unknown"}
+	for range kinds {
+		a := <-ch
+		if a.r == "sat" || a.r == "unsat" {
+			res = a
+			break
+		}
+	}
+	close(cancel)
+	return res.r, res.m, res.k
 }
